@@ -12,14 +12,16 @@ SEED="${VERIF_SEED:-20260101}"
 # atomics), a low one lets a thread run long enough to reach the other end of a lock-order cycle
 RATES=(0.05 0.004)
 run_miri() { # <flags> <workload seed> <rate> -> log on stdout, miri's status
-  MIRIFLAGS="$1 -Zmiri-preemption-rate=$3" cargo +nightly miri run --offline --bin verifsim_mt -- miri-scenario "$2" 2>&1
+  # evalexpr forbids unsafe code and the harness has none: the aliasing model and validity checks
+  # are switched off (twice as many schedules per minute); data-race detection stays on
+  MIRIFLAGS="$1 -Zmiri-preemption-rate=$3 -Zmiri-disable-stacked-borrows -Zmiri-disable-validation" cargo +nightly miri run --offline --bin verifsim_mt -- miri-scenario "$2" 2>&1
 }
 if [ "${1:-}" = "replay" ]; then
   run_miri "-Zmiri-seed=$3" "$2" "${4:-0.05}"
   exit $?
 fi
 tier="${1:-thorough}"
-if [ "$tier" = "thorough" ]; then W="${VERIF_MIRI_WORKLOADS:-8}"; N="${VERIF_MIRI_SEEDS:-64}"; else W="${VERIF_MIRI_WORKLOADS:-3}"; N="${VERIF_MIRI_SEEDS:-16}"; fi
+if [ "$tier" = "thorough" ]; then W="${VERIF_MIRI_WORKLOADS:-8}"; N="${VERIF_MIRI_SEEDS:-128}"; else W="${VERIF_MIRI_WORKLOADS:-3}"; N="${VERIF_MIRI_SEEDS:-32}"; fi
 start=$(date +%s)
 ok=0
 # build once, then run the workloads PAR at a time (each interprets N schedule seeds in parallel)
@@ -79,5 +81,5 @@ PY
   ok=$((ok + $(grep -c "miri-scenario: ok" "$log")))
 done
 end=$(date +%s)
-echo "{\"ran\": true, \"violation\": false, \"workloads\": $W, \"miri_seeds_per_workload\": $N, \"interpreted_runs_ok\": $ok, \"preemption_rates\": \"${RATES[*]}\", \"wall_s\": $((end-start)), \"engine\": \"cargo +nightly miri run, -Zmiri-many-seeds, plain std::thread, no hooks installed\"}"
+echo "{\"ran\": true, \"violation\": false, \"workloads\": $W, \"miri_seeds_per_workload\": $N, \"interpreted_runs_ok\": $ok, \"preemption_rates\": \"${RATES[*]}\", \"wall_s\": $((end-start)), \"engine\": \"cargo +nightly miri run, -Zmiri-many-seeds, plain std::thread, no hooks installed, stacked borrows and validation off, data-race detection on\"}"
 exit 0
